@@ -335,9 +335,10 @@ def load_model(model_folder: str, model_name: str, compiler_options: Dict[str, s
                 raise InvalidCacheError("Cache generated for incompatible CasADi version")
             else:
                 raise
-        except (EOFError, pickle.UnpicklingError):
-            # Empty, truncated or partially written cache file
-            raise InvalidCacheError("Cache file is incomplete")
+        except Exception:
+            # Empty, truncated, partially written or otherwise unreadable cache file (for
+            # example the bytes of two concurrent writers with different compiler options)
+            raise InvalidCacheError("Cache file is incomplete or unreadable")
 
         if db["version"] != __version__:
             raise InvalidCacheError("Cache generated for a different version of pymoca")
